@@ -98,7 +98,7 @@ class Ref:
                 raise Invalid()
             self.st[a[0]] = [src[:n], True]
             gained = src[:n]
-            self.key += (min(n, 3), len(src) > n)
+            self.key += (min(n, 6), len(src) > n)
         elif op == "init":
             self.fresh(a[0])
             if len(a) - 1 > 5:
@@ -110,12 +110,12 @@ class Ref:
             self.fresh(a[0])
             self.st[a[0]] = [[dfl] * a[1], True]
             gained = self.vals([dfl] * a[1])
-            self.key += (min(a[1], 3),)
+            self.key += (min(a[1], 6),)
         elif op == "fill":
             self.fresh(a[0])
             self.st[a[0]] = [[a[2]] * a[1], True]
             gained = [a[2]] * a[1]
-            self.key += (min(a[1], 3),)
+            self.key += (min(a[1], 6),)
         elif op == "dflt":
             self.fresh(a[0])
             self.st[a[0]] = [[], False]
@@ -124,22 +124,22 @@ class Ref:
             o = self.need(a[1])
             self.st[a[0]] = [list(o[0]), True]
             gained = self.vals(o[0])
-            self.key += (min(len(o[0]), 3), o[1], None in o[0])
+            self.key += (min(len(o[0]), 6), o[1], None in o[0])
         elif op == "mctor":
             self.fresh(a[0])
             o = self.need(a[1])
             self.st[a[0]] = o
             self.st[a[1]] = [[], False]
-            self.key += (min(len(o[0]), 3), o[1])
+            self.key += (min(len(o[0]), 6), o[1])
         elif op == "cassign":
             d, s = self.need(a[0]), self.need(a[1])
-            self.key += (a[0] == a[1], min(len(d[0]), 3), min(len(s[0]), 3), d[1], s[1])
+            self.key += (a[0] == a[1], min(len(d[0]), 6), min(len(s[0]), 6), d[1], s[1])
             if a[0] != a[1]:
                 lost, gained = self.vals(d[0]), self.vals(s[0])
                 self.st[a[0]] = [list(s[0]), True]
         elif op in ("massign", "swap"):
             d, s = self.need(a[0]), self.need(a[1])
-            self.key += (a[0] == a[1], min(len(d[0]), 3), min(len(s[0]), 3), d[1], s[1])
+            self.key += (a[0] == a[1], min(len(d[0]), 6), min(len(s[0]), 6), d[1], s[1])
             self.st[a[0]], self.st[a[1]] = s, d
         elif op in ("resize", "resizev", "resizeself"):
             o = self.need(a[0])
@@ -176,7 +176,7 @@ class Ref:
             if None in o[0]:
                 raise Invalid()
             res = "l=" + " ".join(map(str, o[0]))
-            self.key += (min(len(o[0]), 3),)
+            self.key += (min(len(o[0]), 6),)
         elif op == "len":
             res = "n=%d" % len(self.need(a[0])[0])
         elif op in ("front", "back"):
@@ -188,7 +188,7 @@ class Ref:
             o = self.need(a[0])
             lost = self.vals(o[0])
             self.st[a[0]] = None
-            self.key += (min(len(o[0]), 3), o[1])
+            self.key += (min(len(o[0]), 6), o[1])
         else:
             raise Invalid()
         return res + " | " + (delta(lost, gained) if self.cls else "d:?")
@@ -537,7 +537,7 @@ def run_tie(prop, spec, tier, seed):
     res.distinct = len(distinct)
     res.rule = ("cases = corpus (%d) + systematic (every construction path x length 0..3 x every single op%s, every two-variable op over every pair of "
                 "construction paths) + seeded random valid histories over 1-3 variables; class cases run on Array<Tracked>, non-class cases on Array<long> "
-                "and Array<unsigned char>; distinct_nontrivial = distinct (mutating op, element kind, size class 0/1/2/3+ of the operands, grow/shrink/same, "
+                "and Array<unsigned char>; distinct_nontrivial = distinct (mutating op, element kind, exact sizes 0..5 / 6+ of the operands, grow/shrink/same, "
                 "to-zero / from-empty, holds-storage flags, self-aliasing, uninitialised-source) tuples computed by the oracle"
                 % (len(corpus), "" if tier == "quick" else " and every pair of ops"))
     res.dist = {"ops": opcount, "cases": ncases, "total_ops": sum(opcount.values()),
